@@ -114,6 +114,12 @@ func tryFastCompare(expression string) *fastCompare {
 		if err != nil {
 			return nil
 		}
+		// From 2^53 on float64 no longer represents every integer (2^53+1 parses to
+		// 2^53), while the general engine compares integer operands exactly: leave
+		// such literals to it.
+		if n >= maxExactFloatInt || n <= -maxExactFloatInt {
+			return nil
+		}
 		return &fastCompare{field: m[1], op: m[2], numLit: n}
 	}
 	if m := fastFieldOpStr.FindStringSubmatch(expression); m != nil {
@@ -234,6 +240,13 @@ func tryFastCompound(expression string) *fastCompound {
 	return &fastCompound{op: op, parts: compares}
 }
 
+// maxExactFloatInt is the largest magnitude up to which every integer is exactly
+// representable as a float64 (2^53).
+const maxExactFloatInt = 1 << 53
+
+// toFloat64Fast converts a numeric value for the fast path. 64-bit (and
+// platform-width) integers beyond +-2^53 are refused (ok=false) so that the
+// general engine, which compares integers exactly, decides them.
 func toFloat64Fast(v any) (float64, bool) {
 	switch x := v.(type) {
 	case float64:
@@ -241,14 +254,26 @@ func toFloat64Fast(v any) (float64, bool) {
 	case float32:
 		return float64(x), true
 	case int:
+		if int64(x) > maxExactFloatInt || int64(x) < -maxExactFloatInt {
+			return 0, false
+		}
 		return float64(x), true
 	case int64:
+		if x > maxExactFloatInt || x < -maxExactFloatInt {
+			return 0, false
+		}
 		return float64(x), true
 	case int32:
 		return float64(x), true
 	case uint:
+		if uint64(x) > maxExactFloatInt {
+			return 0, false
+		}
 		return float64(x), true
 	case uint64:
+		if x > maxExactFloatInt {
+			return 0, false
+		}
 		return float64(x), true
 	case uint32:
 		return float64(x), true
